@@ -96,7 +96,10 @@ def certain_payoff(kind, call, K, spot):
         return v, away
     mx = spot.double().max(dim=1).values
     if kind == "AmericanBinaryOption":
-        away = ((mx - K).abs() > 1e-6 * K)
+        # a running maximum exactly on a strike that is representable in the dtype means the barrier HAS been reached:
+        # the payoff is 1 for sure (typical: initial spot = strike and the path never trades above it)
+        exact = (mx == K) & bool(float(torch.tensor(K, dtype=torch.float64).to(spot.dtype).double()) == float(K))
+        away = ((mx - K).abs() > 1e-6 * K) | exact
         return (mx >= K).double(), away
     if kind == "LookbackOption":
         return (mx - K).clamp(min=0), torch.ones_like(ST, dtype=torch.bool)
@@ -231,7 +234,7 @@ def _one_op(op, world, program, stats, hist, p0, dspecs, flat, pkind, dtv, shock
             nan = out.isnan()
             if bool(nan.any()):
                 lm, ttm, vol = _state(d, spot)
-                cause, singular = _cause(nan, lm, ttm, vol)
+                cause, singular = _cause(nan, lm, ttm, vol, sp["kind"])
                 if singular:
                     stats.ambiguous_skipped += 1
                     return shocked
@@ -281,7 +284,7 @@ def _one_op(op, world, program, stats, hist, p0, dspecs, flat, pkind, dtv, shock
                     lp = l.spot
                 nan = ~torch.isfinite(lp)
                 lm, ttm, vol = _state(l, spot)
-                cause, singular = _cause(nan, lm, ttm, vol) if bool(nan.any()) else ("pl", False)
+                cause, singular = _cause(nan, lm, ttm, vol, dspecs["d1"]["kind"]) if bool(nan.any()) else ("pl", False)
                 if singular:
                     stats.ambiguous_skipped += 1
                     return shocked
@@ -300,10 +303,17 @@ def _state(d, spot):
     return lm, ttm, vol
 
 
-def _cause(mask, lm, ttm, vol):
+def _cause(mask, lm, ttm, vol, kind=None):
     """classify the market state at the entries selected by mask; returns (cause, singular)"""
     if not bool(mask.any()):
         return "none", False
+    if kind == "AmericanBinaryOption":
+        # spot on the strike means the barrier has been reached: price 1, delta 0 - nothing singular about it
+        zv0 = (vol == 0)[mask]
+        zt0 = (ttm == 0)[mask]
+        if bool((zv0 | zt0).all()):
+            return ("zero_volatility" if bool(zv0.any()) else "zero_time"), False
+        return ("far_from_strike" if bool((lm.abs()[mask] > 0.5).any()) else "ordinary"), False
     zv = (vol == 0)[mask]
     zt = (ttm == 0)[mask]
     atm = (lm == 0)[mask]
@@ -336,11 +346,11 @@ def diagnose(d, kind, model, spot, hedger_cols_only=True):
         if hedger_cols_only:
             bad[:, T - 1] = False  # the hedger never uses the maturity column
         if bool(bad.any()):
-            cause, singular = _cause(bad, lm, ttm, vol)
+            cause, singular = _cause(bad, lm, ttm, vol, kind)
             return "%s.%s@%s" % (type(m).__name__, meth, cause), singular
     # the module methods are finite on the state: the defect is in the hedging model / band itself
     lmz = (lm[:, : T - 1] == 0) & ((vol[:, : T - 1] == 0) | (ttm[:, : T - 1] == 0))
-    if bool(lmz.any()):
+    if bool(lmz.any()) and kind != "AmericanBinaryOption":
         return "%s_model@singular" % model, True
     zero = bool(((vol[:, : T - 1] == 0)).any())
     return "%s_model@%s" % (model, "zero_volatility" if zero else "ordinary"), False
